@@ -297,7 +297,7 @@ func (e *Env) retarget(actor string, pass *Pass, plan *Plan) {
 // NewEnv builds clients and the real dynamic cache for one pass over w.
 func (w *World) NewEnv(actor string, pass *Pass, plan *Plan) *Env {
 	h := &hook{w: w, pass: pass, plan: plan}
-	base := &kmodel.Client{S: w.S, Sch: Scheme, Map: Mapper, Hook: h, Actor: actor}
+	base := &kmodel.Client{S: w.S, Sch: Scheme, Map: Mapper, Hook: h, Actor: actor, Manager: "package-operator-manager"}
 	if plan != nil && len(plan.HideInList) > 0 {
 		base.ListHide = map[kmodel.Key]bool{}
 		for _, k := range plan.HideInList {
@@ -449,6 +449,9 @@ func (w *World) Canon() string {
 			ap = append(ap, p)
 		}
 		sort.Strings(ap)
+		if len(o.Legacy) > 0 {
+			sb.WriteString("|legacy-managers:" + strings.Join(o.Legacy, ","))
+		}
 		sb.WriteString("|applied:")
 		aps := strings.ReplaceAll(strings.Join(ap, ","), "\x00", ".")
 		if strings.Contains(aps, "uid=") {
